@@ -21,7 +21,12 @@ RULE = (
     "(every stereoisomer reachable), explicit H, embedded with ETKDG under "
     "a drawn seed; conformers whose RDKit-re-perceived stereo differs from "
     "the input, whose distance connectivity differs from the bonds, or "
-    "which fail the general-position margins are skipped and counted. "
+    "which fail the general-position margins, contain a collapsed bond "
+    "(shorter than 0.7 x the sum of the covalent radii), a four-coordinate "
+    "atom whose ligands are coplanar by the oracle's own measure (a failed "
+    "embedding: all four-coordinate atoms here are sp3) or a quadruple "
+    "straddling the planarity threshold (open finding F-C07) are skipped "
+    "and counted. "
     "Oracle: the graph from RDMol2StereoMolGraph(stereo_complete=True, "
     "lone_pair_stereo=False, resonance=True) and the graph from "
     "from_geometry(from_xyz(MolToXYZBlock)) have the same bonds, equivalent "
@@ -62,7 +67,7 @@ def _desc(s):
 def check_organic(ctx, case):
     from rdkit import Chem
     from rdkit.Chem import AllChem
-    from vp.props.c07 import margins, _adjacency
+    from vp.props.c07 import margins, _adjacency, straddles, _quad_class
     from vp.props.c12 import true_stereocentres_only
     mol = rdgen.mol_from_smiles(case["smiles"])
     if mol is None:
@@ -98,6 +103,25 @@ def check_organic(ctx, case):
     adj = _adjacency(elems, coords)
     rd_bonds = {frozenset((b.GetBeginAtomIdx(), b.GetEndAtomIdx()))
                 for b in m3.GetBonds()}
+    # a collapsed embedding (ETKDG occasionally returns one: a C-H distance
+    # of 0.4 A, a flattened sp3 carbon) is not a conformer of the molecule
+    for bd in rd_bonds:
+        i, j = tuple(bd)
+        if G.norm(G.sub(coords[i], coords[j])) < 0.7 * (
+                G.RADII[elems[i]] + G.RADII[elems[j]]):
+            ctx.exclude("embedding-collapsed-bond")
+            return None
+    if straddles(elems, coords):
+        # order-dependent planarity test: open finding F-C07, reported there
+        ctx.exclude("straddling-planarity")
+        return None
+    for i, nb in adj.items():
+        if len(nb) == 4 and _quad_class(
+                [coords[j] for j in sorted(nb)]) != "nonplanar":
+            # every four-coordinate atom of this domain is sp3; ETKDG now
+            # and then returns one squashed flat (C-C-C angle near 180)
+            ctx.exclude("embedding-flattened-sp3-centre")
+            return None
     my_bonds = {frozenset((i, j)) for i, nb in adj.items() for j in nb}
     if rd_bonds != my_bonds:
         ctx.exclude("distance-connectivity-differs-from-bonds")
